@@ -387,7 +387,7 @@ func softKind(ob *Obligation) bool {
 	switch ob.Kind {
 	case "nlfree-msg", "nlfree-store", "folded-key", "folded-store", "folded-elems":
 		return true
-	case "forbid-call", "loop-complete", "loop-nobreak", "loop-noreturn", "format-const", "map-order", "shared-write", "immutable-store":
+	case "forbid-call", "loop-complete", "loop-nobreak", "loop-noreturn", "format-const", "map-order", "shared-write", "immutable-store", "callback":
 		// syntactic disciplines: a failing one has the condition `false`; assuming it afterwards would make
 		// the rest of the function vacuously provable
 		return true
